@@ -121,6 +121,10 @@ def enabled(ref, client_ids=CLIENT_IDS, server_ids=SERVER_IDS, types=TYPES, with
             if not ref.live(i):
                 for bt in BIND_TYPES:
                     evs.append(['bind', i, bt])
+    # an event that was still on its way when its target was destroyed hands out a new server-side object
+    for i in known:
+        if not ref.live(i) and i < SERVER_BASE and ref.latest(i).type.startswith('zz_'):      # an interface no description fixes
+            evs.append(['cfrom', i, server_ids[0], types[0]])
     if has_factory:
         for i in known:
             evs.append(['ment', i])
@@ -163,6 +167,14 @@ def build(ev, ref, t_us, server_side=False, conn=None, queue=None, decor=None):
         _, sid, t = ev
         sent, iface, oid, name = False, 'zz_f', FACTORY_ID, 'offer'
         exp['target'] = ref.label(oid)
+        ref.create(sid, t, t_us)
+        args = [['new', t, sid]]
+        exp['args'] = [('new', ref.label(sid))]
+    elif k == 'cfrom':
+        _, i, sid, t = ev
+        o = ref.latest(i)
+        sent, iface, oid, name = False, o.type, i, 'spawned'
+        exp['target'] = ref.label(i)
         ref.create(sid, t, t_us)
         args = [['new', t, sid]]
         exp['args'] = [('new', ref.label(sid))]
